@@ -30,7 +30,7 @@ RULE = (
     "one evaluation = one batch (program, dataset, options) = a canonical single-core run plus 3-6 perturbed runs in the same interpreter; "
     "distinct_nontrivial = distinct SHA-256 of the IPC event sequence (who reached which synchronisation point in which order) among the multi-core runs"
 )
-FAULT_KEYS = ["policy_uniform", "policy_sticky", "policy_starve_writer", "policy_starve_main", "policy_eager_main", "policy_last_first", "schedule_choices", "multi_core_runs", "cores_gt_loci", "locus_order", "locus_subset", "region_single", "prior_work", "proc_rng_init",
+FAULT_KEYS = ["locus_subset_empty", "policy_uniform", "policy_sticky", "policy_starve_writer", "policy_starve_main", "policy_eager_main", "policy_last_first", "schedule_choices", "multi_core_runs", "cores_gt_loci", "locus_order", "locus_subset", "region_single", "prior_work", "proc_rng_init",
               "clock_jump", "small_stdout_buffer", "buffer_full_write", "failing_locus_injected", "failing_locus_real", "fork_unflushed"]
 PROBE_KEYS = ["runs_total", "multi_core_runs", "failing_locus_in_worker", "failing_locus_single_core", "empty_block", "records_compared",
               "header_compared", "torn_tail_on_failure", "programs_assemble", "programs_call", "programs_call_exact", "programs_call_pedigree"]
@@ -125,7 +125,7 @@ def gen_config(rng, tier, index=0):
         cfg["variants"].append({
             "cores": rng.choice([1, 2, 2, 3, 4, 5, 8]),
             "order": rng.choice(["file", "shuffle", "shuffle", "reverse"]),
-            "subset": rng.choice([None, None, rng.random()]),
+            "subset": rng.choice([None, None, rng.random(), rng.random(), "empty"]) if rng.random() < 0.15 else rng.choice([None, None, rng.random()]),
             "region": rng.random() < 0.08,
             "prior_work": rng.choice([None, "raw", "raw", "fit"]),
             "proc_rng_init": rng.random() < 0.7,
@@ -364,14 +364,18 @@ def run_batch(ctx, b):
         elif var["order"] == "reverse":
             units.reverse()
             ctx.counters.inc("locus_order")
-        if var["subset"] is not None and len(units) > 1:
+        if var["subset"] == "empty":
+            # no target at all: a header and nothing else, exit status 0
+            units = []
+            ctx.counters.inc("locus_subset_empty")
+        elif var["subset"] is not None and len(units) > 1:
             keep = max(1, int(round(var["subset"] * len(units))))
             if keep < len(units):
                 units = units[:keep]
                 ctx.counters.inc("locus_subset")
         region = None
         cores = var["cores"]
-        if var["region"] and program == "assemble":
+        if var["region"] and program == "assemble" and units:
             units = units[:1]
             region = ds["loci"][units[0]]
             ctx.counters.inc("region_single")
@@ -380,7 +384,7 @@ def run_batch(ctx, b):
         fail_key = None
         before = None
         dsv = ds
-        if var["fail"] and cfg["fail"] and region is None:
+        if var["fail"] and cfg["fail"] and region is None and units:
             fpos = min(len(units) - 1, int(cfg["fail"]["pos"] * len(units)))
             fail_key = want_keys[fpos]
             with_snv = [u for u in units if ds.get("locus_snvs") and ds["locus_snvs"][u]]
